@@ -629,7 +629,7 @@ class World:
         peers = []
         for key in sorted(self.peers_map()):
             p = self.peers_map()[key]
-            peers.append((key, int(p.fsm.state), p.proto is not None, p._teardown, p.neighbor.rib.outgoing.pending() if p.neighbor.rib else None))
+            peers.append((key, int(p.fsm.state), p.proto is not None, getattr(p, '_teardown', None), p.neighbor.rib.outgoing.pending() if p.neighbor.rib else None))
         socks = tuple((len(s.tx), sum(len(d) for _, _, d in s.tx), s.consumed, len(s.rx), s.closed, s.connected) for s in self.sockets)
         timers = tuple(sorted(round(h.when() - self.clock.now, 6) for h in self.loop._scheduled if not h.cancelled()))
         procs = self.reactor.processes if hasattr(self.reactor, 'processes') else None
@@ -690,6 +690,15 @@ class World:
         if fd in self.loop.readers:
             cb, args = self.loop.readers[fd]
             cb(*args)
+
+    def children_by_service(self) -> dict:
+        """{helper process name: name of its stand-in child}: the table of running helpers of the real Processes object,
+        found by content (a dict whose values are the stand-ins) whatever it is called."""
+        procs = self.reactor.processes
+        for v in vars(procs).values():
+            if isinstance(v, dict) and v and all(isinstance(x, FakeChild) for x in v.values()):
+                return {name: [k for k, c in self.children.items() if c is proc][0] for name, proc in v.items()}
+        return {}
 
     def api_output(self, child: str | None = None) -> bytes:
         c = self.children[child] if child else next(iter(self.children.values()))
